@@ -17,7 +17,8 @@ ExpectedOutcome(config) == TRUE
 RootAllowed(config, crate_path, root) ==
   /\ root \notin {"::std", "::alloc", "std", "alloc", "core"}
   /\ (crate_path # "" => root # "::strum")
-\* format!, vec!, println!, ... need std/alloc; these exist in core
-AllowedMacros == {"panic", "format_args", "concat", "stringify", "matches", "unreachable", "debug_assert", "assert", "write", "phf_map",
-                  "unimplemented", "todo", "compile_error"}
+\* only what is certainly wrong is flagged: macros that exist only with std / alloc (format_args!, panic!, write!,
+\* concat!, matches!, assert!, ... live in core and are fine)
+StdOnlyMacros == {"format", "vec", "println", "print", "eprintln", "eprint", "dbg", "thread_local"}
+MacroAllowed(m) == m \notin StdOnlyMacros
 =============================================================================
